@@ -176,6 +176,7 @@ Inductive req :=
 | RCommit (v : N)
 | RNewVersion (parent child : N)       (* newversion or branch *)
 | RDagMerge (parent : N) (others : list N) (child : N)   (* POST repo/merge: [parent] is the first parent *)
+| RRestart                              (* the server process is stopped and started again on its stores *)
 | RObserve.
 
 Record step := {
@@ -267,6 +268,7 @@ Definition K_MAXLABEL := 9%nat.   (* maxlabel of a non-root version unset or bel
 Definition K_MAXLABEL_ROOT := 10%nat.
 Definition K_DAGMERGE := 12%nat.   (* at the child of a DAG merge node the mapping follows the first parent only while
                                       indices / blocks resolve over all parents (finding C08-dagmerge) *)
+Definition K_RESTART := 13%nat.    (* a restart of the server changed what a version shows *)
 Definition K_LOWRES := 11%nat.     (* scale 1 is not the down-sampling of scale 0 / its mapped read is not the mapping of it *)
 
 Definition first_nz (l : list nat) : nat :=
@@ -454,7 +456,7 @@ Definition snap_step (g : geom) (mc : list N) (st : step) (first : bool) (tbl : 
               if own then
                 if st_ok st then chk (conserve_ok (st_req st) po o) K_CONSERVE
                 else chk (obs_same po o) K_REJECTED
-              else chk (obs_same po o) K_ISOLATION
+              else chk (obs_same po o) (match st_req st with RRestart => K_RESTART | _ => K_ISOLATION end)
             end in
   let k := pick [k1; k2] in
   ((if memN (sn_ver s) mc && negb (Nat.eqb k 0) && dag_signature o then K_DAGMERGE else k),
@@ -553,6 +555,7 @@ Definition req_ops (g : geom) (lay : vol N) (s : mstate) (st : step) : list mop 
   | RCommit _ => []
   | RNewVersion p c => [MNewVersion p c]
   | RDagMerge p _ c => [MNewVersion p c]     (* the machine has no merge nodes: first parent only *)
+  | RRestart => []
   | RObserve => []
   end.
 
